@@ -25,6 +25,7 @@ impl<T> SharedData<T> {
     ///
     /// In case this is needed to be stored and/or used outside of the function,
     /// it is recommended to use the `read_fn` method instead.
+    #[cfg(not(feature = "verif-hooks"))]
     pub fn read(&'_ self) -> RwLockReadGuard<'_, T> {
         match self.inner.read() {
             Ok(guard) => guard,
@@ -32,34 +33,64 @@ impl<T> SharedData<T> {
         }
     }
 
+    /// Same as above, with the acquisition and the release recorded (feature `verif-hooks` only).
+    #[cfg(feature = "verif-hooks")]
+    #[track_caller]
+    pub fn read(&'_ self) -> crate::verif::TracedReadGuard<'_, T> {
+        let at = std::panic::Location::caller();
+        let name = std::any::type_name::<T>();
+        crate::verif::lock_event(name, "r", "req", at);
+        let guard: RwLockReadGuard<'_, T> = match self.inner.read() {
+            Ok(guard) => guard,
+            Err(error) => error.into_inner(),
+        };
+        crate::verif::lock_event(name, "r", "acq", at);
+        crate::verif::TracedReadGuard { guard, name, at }
+    }
+
     /// This method allows you to read from the inner data and handle errors.
     /// It returns a result of the operation.
+    #[cfg_attr(feature = "verif-hooks", track_caller)]
     pub fn read_fn<F, R>(&self, f: F) -> Result<R, Box<dyn Error>>
     where
         F: FnOnce(&T) -> Result<R, Box<dyn Error>>,
     {
+        #[cfg(feature = "verif-hooks")]
+        let _verif_span = crate::verif::LockSpan::new(std::any::type_name::<T>(), "r");
         let guard = match self.inner.read() {
             Ok(guard) => guard,
             Err(error) => error.into_inner(),
         };
+        #[cfg(feature = "verif-hooks")]
+        _verif_span.acquired();
         f(&*guard)
     }
 
     /// This method allows you to read from the inner data and handle errors.
+    #[cfg_attr(feature = "verif-hooks", track_caller)]
     pub fn write_fn<F, R>(&self, f: F) -> Result<R, Box<dyn Error>>
     where
         F: FnOnce(&mut T) -> Result<R, Box<dyn Error>>,
     {
+        #[cfg(feature = "verif-hooks")]
+        let _verif_span = crate::verif::LockSpan::new(std::any::type_name::<T>(), "w");
         let mut guard = self.inner.write().expect("Failed to acquire write lock");
+        #[cfg(feature = "verif-hooks")]
+        _verif_span.acquired();
         f(&mut guard)
     }
 
     /// This method allows you to write to the inner data without checking for errors.
+    #[cfg_attr(feature = "verif-hooks", track_caller)]
     pub fn write_fn_unchecked<F>(&self, f: F)
     where
         F: FnOnce(&mut T) -> (),
     {
+        #[cfg(feature = "verif-hooks")]
+        let _verif_span = crate::verif::LockSpan::new(std::any::type_name::<T>(), "w");
         let mut guard = self.inner.write().expect("Failed to acquire write lock");
+        #[cfg(feature = "verif-hooks")]
+        _verif_span.acquired();
         f(&mut guard)
     }
 }
